@@ -143,7 +143,7 @@ Proof. exact remove_cells_selection. Qed.
 Print Assumptions C07_remove_cells_is_selection.
 
 Theorem C07_masked_copy_is_selection : forall fl o ovm ocm o',
-  wf o -> (ovm = None \/ ocm = None) -> (ok o = OPoints -> ocm = None) ->
+  wf o -> (ovm = None \/ ocm = None) -> cmask_ok o ocm ->
   masked_copy fl o ovm ocm = Done o' ->
   selection (mask_or_all ovm (length (verts o))) (copy_cmask o (mask_or_all ovm (length (verts o))) ocm) o o'.
 Proof. exact masked_copy_done. Qed.
@@ -294,7 +294,7 @@ Example C07_plain_nonvacuous :
   no_text_kids ex_obj /\
   plain_ok ex_obj [RemoveVertices [3; -4; 3]%Z; SetValues 1 [Some 1%Z]; MaskedCopy (Some [true; false; true]) None; Reopen [2; 1]].
 Proof.
-  split; [repeat constructor; discriminate|]. simpl. repeat split; auto.
+  split; [repeat constructor; discriminate|]. simpl. repeat split; auto; intros; discriminate.
 Qed.
 
 (* data copied onto another object of the same size with a non-prefix mask: kept values stay at indices 1, 3, 4 *)
